@@ -132,6 +132,24 @@ CLAIMS = {
                 '(transaction, block) join (known finding F15a).',
         'note': 'Not decided: status sequences over time, retry scheduling. Known finding F15a is listed in known_findings.json.',
     },
+    'C10': {
+        'technique': 'static analysis: abort-site census over the handler call closure in compiler MIR, discharged by guard-flow idioms, interprocedural wire-taint, and a reviewed table with required dominating facts',
+        'text': 'Decides that every abort-capable site (overflow/bounds/division asserts, explicit panics, unwrap/expect, panicking library '
+                'calls from a repository-specific table) reachable from the four received() handlers — and from notify/connected — is '
+                'discharged by a proven guard idiom, by provenance (no peer-derived operand), by being a decoder of self-written store '
+                'bytes, or by a reviewed entry whose required guards still dominate it; plus decode discipline, no unchecked molecule '
+                'readers, total-difficulty admission of every LastState, and the non-empty last-N shape. New unguarded arithmetic / '
+                'indexing / unwrap on peer data, or removal of a guard an entry relies on, is reported.',
+        'note': 'Not decided: panics inside library code outside the table; resource exhaustion; semantic adequacy of a recognised comparison. '
+                'One reviewed entry (RelayProtocol::connected peer-id unwrap) rests on a stated assumption about tentacle session addresses.',
+    },
+    'C14': {
+        'technique': 'static analysis: the C10 abort-site engine on the closed call set of verify_tau / verify_total_difficulty with every parameter treated as peer-supplied',
+        'text': 'Decides ONLY the last sentence of C14 ("they never abort, whatever numbers a peer supplies"): no undischarged abort-capable '
+                'site and no explicit panic remains in the difficulty checks and their callees. The acceptance/rejection envelope is '
+                'arithmetic over epoch sequences and is not decided by static analysis.',
+        'note': 'Not decided: completeness/soundness of the tau envelope (value clause).',
+    },
 }
 
 _PENDING = 'check not built yet in this round (planned in DESIGN.md §5); not claimed until its rules run on the tree'
